@@ -3,7 +3,8 @@ from contracts import keys, specs
 
 ID = "C35"
 TARGETS = ["paramiko.ed25519key.Ed25519Key.verify_ssh_sig", "paramiko.rsakey.RSAKey.verify_ssh_sig",
-           "paramiko.ecdsakey.ECDSAKey.verify_ssh_sig"]
+           "paramiko.ecdsakey.ECDSAKey.verify_ssh_sig", "paramiko.ecdsakey.ECDSAKey._sigdecode"]
+EXTRA_AXIOMS = specs.MPINT_AXIOMS
 REPLAY = {"*": "c35.replay_verify"}
 
 
